@@ -112,6 +112,9 @@ let handle (s : sexp) : string = match s with
       "(" ^ sb (check_c07 phis p eps suc) ^ " " ^ so sz (c07_norm phis p suc) ^ ")"
   | L [A "roundtrip"; phis; phis2; tol; stol] ->
       sb (check_roundtrip (list_of q_of phis) (list_of q_of phis2) (q_of tol) (q_of stol))
+  | L [A "respdists"; wz; mx; phis; pts] ->
+      let pt = function L [a; re; im] -> (q_of a, (q_of re, q_of im)) | _ -> failwith "pt" in
+      sl (so sz) (resp_dists (bool_of wz) (bool_of mx) (list_of q_of phis) (list_of pt pts))
   | L [A "scale"] -> sz scaleZ
   | _ -> failwith "unknown command"
 
